@@ -118,6 +118,34 @@ class CIDRExpandV4(Contract):
     def frame_ok(self, I, inp, obj, name):
         return False
 
+    def candidates(self):
+        """native domain searched when the solvers leave an obligation open: every prefix length x three addresses x three wildcard tokens"""
+        for w in ("*", "%", ".*"):
+            for plen in range(33):
+                for base in (0x0A0B0C0D, 0xC0A801FE, 0):
+                    a = base & ~((1 << (32 - plen)) - 1) & 0xFFFFFFFF
+                    yield {"cidr": f"{(a >> 24) & 255}.{(a >> 16) & 255}.{(a >> 8) & 255}.{a & 255}/{plen}", "wildcard": w}
+
+    def replay(self, values):
+        if "cidr" not in values:
+            return None
+        from sigma.types import SigmaCIDRExpression
+        cidr, w = values["cidr"], values.get("wildcard", "*")
+        addr, plen = cidr.split("/")
+        plen = int(plen)
+        o = [int(x) for x in addr.split(".")]
+        a = (o[0] << 24) | (o[1] << 16) | (o[2] << 8) | o[3]
+        d = (8 - plen % 8) % 8
+        q = plen + d
+        g = q // 8
+        want = []
+        for k in range(1 << d):
+            s = a + k * (1 << (32 - q))
+            octs = [(s >> 24) & 255, (s >> 16) & 255, (s >> 8) & 255, s & 255]
+            want.append(w if g == 0 else ".".join(map(str, octs)) if g == 4 else ".".join(map(str, octs[:g])) + "." + w)
+        got = SigmaCIDRExpression(cidr).expand(w)
+        return None if got == want else f"SigmaCIDRExpression({cidr!r}).expand({w!r}) = {got[:4]}{'...' if len(got) > 4 else ''}, the specification gives {want[:4]}{'...' if len(want) > 4 else ''}"
+
 
 @register
 class CIDRv4Arithmetic(Lemma):
